@@ -621,6 +621,25 @@ func buildSurfaces(c *mc.Ctx) []surface {
 		})
 		return
 	}})
+	// ---- key comparison: the slice-typed Ed25519 keys compare caller-supplied byte strings of ANY length (nil, a
+	// 32-byte seed, a truncated or over-long key): never a panic, equal only for the same length and bytes.  "accepted"
+	// is "reported equal to the valid key"; both operand orders.
+	add(surface{name: "ed25519.PrivateKey.Equal(argument)", size: 64, valid: sk, call: func(used bool, d []byte) (o outcome) {
+		guard(&o, func() { o.accepted = sk.Equal(ed25519.PrivateKey(d)) })
+		return
+	}})
+	add(surface{name: "ed25519.PrivateKey.Equal(receiver)", size: 64, valid: sk, call: func(used bool, d []byte) (o outcome) {
+		guard(&o, func() { o.accepted = ed25519.PrivateKey(d).Equal(sk) })
+		return
+	}})
+	add(surface{name: "ed25519.PublicKey.Equal(argument)", size: 32, valid: pk, call: func(used bool, d []byte) (o outcome) {
+		guard(&o, func() { o.accepted = ed25519.PublicKey(pk).Equal(ed25519.PublicKey(d)) })
+		return
+	}})
+	add(surface{name: "ed25519.PublicKey.Equal(receiver)", size: 32, valid: pk, call: func(used bool, d []byte) (o outcome) {
+		guard(&o, func() { o.accepted = ed25519.PublicKey(d).Equal(ed25519.PublicKey(pk)) })
+		return
+	}})
 	// ---- ECVRF ----
 	add(surface{name: "ecvrf.ProofToHash", size: 80, valid: pi, call: func(used bool, d []byte) (o outcome) {
 		guard(&o, func() { r, err := ecvrf.ProofToHash(d); o.accepted = err == nil && r != nil })
